@@ -102,8 +102,8 @@ class Prop:
             "(thorough 4) under three labelings (distinct / equal-comparing objects under distinct explicit ids / clones in different parents) x "
             "every single add, shortcut, add(node), copy_to, move_to, remove, set_data, rename with every argument (this contains every colliding "
             "and every non-colliding choice of parent and id on these forests); (c) seeded collision-driven histories of <= 30 (thorough 40) steps "
-            "over 1-3 trees (plain/typed, calc_data_id callbacks): 72% of the generator's draws aim at a collision through one of 20 routes "
-            "(measured: > 40% of all executed steps, set-up included, would collide), 15% are near misses that must be accepted, the rest "
+            "over 1-3 trees (plain/typed, calc_data_id callbacks): 86% of the generator's draws aim at a collision through one of 21 routes "
+            "(measured: > 40% of all executed steps, set-up included, would collide), 10% are near misses that must be accepted, the rest "
             "builds material; one history in five is malformed (invalid before, foreign nodes, raising callbacks); (d) hand-made native files for "
             "Tree.load (implementation + oracle only).  After every step: sibling uniqueness by pointer walk; collision predicate computed from "
             "pointers before the step vs. the outcome (refused with UniqueConstraintError / not over-refused); state and outcome equal the "
@@ -249,6 +249,11 @@ CORPUS_C03: list = [
                                                          ["addnode", 0, 2, 0, 1, None, None, None, None]]},
     {"id": "C03-keep-own-clone", "univ": _U, "ops": [_NEW, ["add", 0, 0, 0, None, None, None], ["add", 0, 1, 0, None, None, None],
                                                      ["remove", 0, 1, True, False]]},
+    # re-keying a clone group onto an id that other nodes carry, then placing that id next to one of those nodes
+    {"id": "C03-merge-then-add", "univ": ["s:x", "s:y", "s:p", "s:q", "s:r"],
+     "ops": [_NEW, ["add", 0, 0, 2, None, None, None], ["add", 0, 0, 3, None, None, None], ["add", 0, 0, 4, None, None, None],
+             ["add", 0, 1, 0, None, None, None], ["add", 0, 2, 0, None, None, None], ["add", 0, 3, 1, None, None, None],
+             ["set_data", 0, 4, 1, None, True], ["add", 0, 3, 1, None, None, None]]},
     {"id": "C03-load-dup", "nodes": [[0, "a"], [0, "b"], [0, "a"]]},
     {"id": "C03-load-ref-dup", "nodes": [[0, "a"], [1, "b"], [1, 2]]},
     {"id": "C03-load-clone-below-sibling", "nodes": [[0, "a"], [0, "b"], [2, 1]]},
